@@ -1,3 +1,56 @@
-From LV Require Import Base.Bytes Model.HeaderEnc.
-Theorem C02_placeholder : True. Proof. exact I. Qed.
-Print Assumptions C02_placeholder.
+(* C02  Header section is well-formed and injection-proof for any supplied text.  Statements only. *)
+From Coq Require Import Strings.String.
+From LV Require Import Base.Bytes Base.Str Base.Res Model.HeaderEnc Spec.Rfc5322 Proofs.HeaderProofs.
+From Coq Require Import Arith PeanoNat Lia.
+
+(* For EVERY name and EVERY value (any byte string: CR, LF, NUL, ':', non-ASCII, any length) the
+   encoded body that HeaderValue::new produces consists only of printable ASCII and TAB, except
+   that CR LF may occur as a pair that is immediately followed by SP (a fold).  So no supplied
+   text can put a bare CR or LF, a NUL, or an 8-bit byte on a header line, end the line, or
+   start a new field.  (body_safe e  :=  the three-state scanner accepts e and ends outside
+   a CRLF.) *)
+Theorem C02_value_safe : forall (name value e : bytes),
+  header_value_encode name value = Ok e -> body_safe e.
+Proof. exact header_value_safe. Qed.
+
+(* A header section rendered from any list of fields whose names pass the header-name constructor
+   and whose bodies are safe in that sense, followed by the empty line and any body, is read by
+   an RFC 5322 field splitter as exactly those fields - same names, same order, unfolded bodies -
+   and exactly that body: nothing added, split, truncated or terminated early. *)
+Theorem C02_fields : forall (hs : list (bytes * bytes)) (body : bytes),
+  Forall field_ok hs ->
+  header_block (render_fields hs ++ CRLF ++ body) =
+  Some (map (fun f => (fst f, unfold (snd f))) hs, body).
+Proof.
+  intros hs body H. unfold header_block. apply header_block_reads_back; [|exact H].
+  rewrite app_length.
+  assert (L : forall l : list (bytes * bytes), Forall field_ok l -> (length l <= length (render_fields l))%nat).
+  { induction l as [|[n e] l IH]; intros F; [cbn; auto|]. inversion F; subst.
+    cbn [render_fields flat_map length fst snd]. rewrite app_length. fold (render_fields l).
+    specialize (IH H3). unfold header_line. rewrite !app_length. cbn. lia. }
+  specialize (L hs H). lia.
+Qed.
+
+(* what the header-name constructor accepts: exactly 1..76 characters of RFC 5322 ftext *)
+Theorem C02_names : forall n : bytes,
+  header_name_ok n = true <->
+  (n <> [] /\ (length n <= 76)%nat /\ forall b, In b n -> 33 <= b <= 126 /\ b <> 58).
+Proof.
+  intros n. unfold header_name_ok. split.
+  - intros H. apply andb_prop in H. destruct H as [H Hf]. apply andb_prop in H. destruct H as [Hne Hl].
+    split; [destruct n; [discriminate|discriminate]|]. split; [apply Nat.leb_le; exact Hl|].
+    intros b Hb. pose proof (proj1 (forallb_forall _ _) Hf b Hb) as P. unfold is_ftext_b in P. lia.
+  - intros (Hne & Hl & Hf). destruct n as [|b n]; [contradiction|]. cbn [negb andb].
+    apply andb_true_intro. split; [apply Nat.leb_le; exact Hl|].
+    apply forallb_forall. intros x Hx. destruct (Hf x Hx). unfold is_ftext_b. lia.
+Qed.
+
+Example C02_example_injection :
+  header_value_encode (bs "Subject") [97; 13; 10; 66; 99; 99; 58; 32; 120] = Ok (bs "=?utf-8?b?YQ0KQmNjOg==?= x").
+Proof. vm_compute. reflexivity. Qed.
+Example C02_field_ok_inhabited : field_ok (bs "Subject", bs "hello" ++ CRLF ++ bs " world").
+Proof. split; reflexivity. Qed.
+
+Print Assumptions C02_value_safe.
+Print Assumptions C02_fields.
+Print Assumptions C02_names.
